@@ -8,6 +8,7 @@
 import Sigverif.Model.Mask
 import Sigverif.Model.Bind
 import Sigverif.Model.Visitor
+import Sigverif.Model.Modifiers
 namespace SV
 
 /-- what a marker evaluates to at run time -/
@@ -114,5 +115,15 @@ def discoveredPartial (own : USig) (resolve : RM → RVal) (calls : Option (List
               | .error _ => plain)
   | .error .unknownForwards => plain
   | .error e => .error e
+
+/-- the hint route: a function wrapped by `modifiers.kwoargs / posoargs / autokwoargs` is analysed
+    with its REWRITTEN signature — `_sigtools__autoforwards_hint` hands `(func, ast, self.__signature__)`
+    to `autoforwards_ast`: the walker runs on the function's own source, discovery starts from the
+    parameters `_prepare` advertises (provenance: the translator stands for the function) -/
+def discoveredHint (own : USig) (P W : List Nat) (resolve : RM → RVal) (calls : Option (List CallRec)) :
+    Except Err USig :=
+  match prepare own.params P W with
+  | .ok (ps, _) => discovered { own with params := ps } resolve calls
+  | .error e => .error e          -- the decoration itself fails (ValueError at decoration time)
 
 end SV
